@@ -620,7 +620,9 @@ def item_jwt_flow(repo, out):
     af = _func(tree, '_auth_factory', REL)
     want = ['if token is not None and credentials is not None:', 'if token is not None:']
     got = [ast.unparse(s).split('\n')[0] for s in _body(af)]
-    if got != want or af.decorator_list:
+    if af.decorator_list:
+        raise TranslateError('_auth_factory: unexpected decorator %s' % ast.unparse(af.decorator_list[0]))
+    if got != want:
         raise TranslateError('_auth_factory: unexpected statements %s' % got)
     _no_hidden_state(af, '_auth_factory', {'url', 'token', 'credentials', 'AuthorisationFailed', 'parsed', 'urllib',
                                            '_BearerAuth', '_AWSAuth'})
@@ -652,4 +654,70 @@ def item_jwt_flow(repo, out):
         raise TranslateError('from_url: the URL query is not merged into the keyword arguments')
 
 
-ITEMS = [item_glitches, item_raise_for_status, item_store_init, item_request, item_jwt, item_streaming, item_store_state, item_jwt_flow]
+def item_other_sites(repo, out):
+    """The request sites of the public API besides get_chunk: put_chunk, is_complete, mark_complete / create_array."""
+    tree = _parse(repo, REL)
+    cls = _class(tree, 'S3ChunkStore', REL)
+    derived = [n.name for n in tree.body if isinstance(n, ast.ClassDef)
+               and 'ChunkNotFound' in [ast.unparse(b) for b in n.bases]]
+    # request(): defaults of process / ignored_errors / retries
+    req = _func(cls, 'request', REL)
+    a = req.args
+    names = [x.arg for x in a.args] + [x.arg for x in a.kwonlyargs]
+    dflt = dict(zip([x.arg for x in a.args][len(a.args) - len(a.defaults):], a.defaults))
+    dflt.update({k.arg: v for k, v in zip(a.kwonlyargs, a.kw_defaults) if v is not None})
+    if names[:3] != ['self', 'method', 'url'] or ast.unparse(dflt.get('ignored_errors', ast.Constant(1))) != '()' \
+            or ast.unparse(dflt.get('process', ast.Constant(1))) != 'lambda response: response' \
+            or ast.unparse(dflt.get('retries', ast.Constant(1))) != 'None':
+        raise TranslateError('request: unexpected defaults of process / ignored_errors / retries')
+    # is_complete
+    ic = _func(cls, 'is_complete', REL)
+    args, kw = _request_call(ic, 'self', 'is_complete')
+    body = _body(ic)
+    if args != ["'GET'", 'url'] or set(kw) != {'chunk_name'} or len(body) != 4 or not isinstance(body[2], ast.Try) \
+            or ast.unparse(body[0]) != "obj_name = self.join(array_name, 'complete')" \
+            or ast.unparse(body[1]) != 'url = self.make_url(obj_name)' or ast.unparse(body[3]) != 'return True':
+        raise TranslateError('is_complete: unexpected statements')
+    tr = body[2]
+    if tr.orelse or tr.finalbody or len(tr.handlers) != 1 or len(tr.body) != 1 or \
+            [ast.unparse(x) for x in tr.handlers[0].body] != ['return False'] or tr.handlers[0].type is None:
+        raise TranslateError('is_complete: expected try: request / except X: return False')
+    out.append('Definition s3_is_complete_catches : string := %s.' % coq_string(_name(tr.handlers[0].type)))
+    out.append('Definition s3_chunk_not_found : list string := %s.' % coq_strings(derived))
+    # put_chunk
+    pc = _func(cls, 'put_chunk', REL)
+    args, kw = _request_call(pc, 'self', 'put_chunk')
+    if args != ["'PUT'", 'url'] or set(kw) != {'chunk_name', 'headers', 'data'}:
+        raise TranslateError('put_chunk: request is not PUT url with chunk_name / headers / data')
+    if not isinstance(_body(pc)[-1], ast.Expr) or 'self.request(' not in ast.unparse(_body(pc)[-1]):
+        raise TranslateError('put_chunk: the request is not the last statement')
+    # mark_complete -> create_array -> _create_bucket
+    mc = _func(cls, 'mark_complete', REL)
+    src = [ast.unparse(x) for x in _body(mc)]
+    if src != ['self.create_array(array_name)', "obj_name = self.join(array_name, 'complete')",
+               'url = self.make_url(obj_name)', "self.request('PUT', url, chunk_name=obj_name, data=b'')"]:
+        raise TranslateError('mark_complete: unexpected statements %s' % src)
+    ca = [ast.unparse(x) for x in _body(_func(cls, 'create_array', REL))]
+    if ca != ['array_url = self.make_url(array_name)', 'bucket_url = _bucket_url(array_url)',
+              'self._create_bucket(bucket_url)']:
+        raise TranslateError('create_array: unexpected statements %s' % ca)
+    cb = _body(_func(cls, '_create_bucket', REL))
+    first = cb[0]
+    if not (isinstance(first, ast.Expr) and isinstance(first.value, ast.Call)
+            and ast.unparse(first.value.func) == 'self.request'
+            and [ast.unparse(x) for x in first.value.args] == ["'PUT'", 'url']
+            and [k.arg for k in first.value.keywords] == ['ignored_errors']):
+        raise TranslateError('_create_bucket: first statement is not self.request(PUT, url, ignored_errors=...)')
+    ign = _const_eval(first.value.keywords[0].value, {}, '_create_bucket')
+    rest = [ast.unparse(x).split('\n')[0] for x in cb[1:]]
+    if rest != ['if self.public_read:', 'if self.expiry_days > 0:']:
+        raise TranslateError('_create_bucket: unexpected statements after the bucket request: %s' % rest)
+    out.append('Definition s3_create_bucket_ignored : list Z := %s.' % _zlist(ign))
+    # _connect_read_tuple: one value stands for both
+    crt = [ast.unparse(x) for x in _body(_func(tree, '_connect_read_tuple', REL))]
+    if crt != ['try:\n    connect, read = connect_and_or_read\nexcept TypeError:\n    connect = read = connect_and_or_read',
+               'return (connect, read)']:
+        raise TranslateError('_connect_read_tuple: unexpected body')
+
+
+ITEMS = [item_glitches, item_raise_for_status, item_store_init, item_request, item_jwt, item_streaming, item_store_state, item_jwt_flow, item_other_sites]
